@@ -14,7 +14,7 @@ for d in sorted(glob.glob('/verif/seeded/*/')):
             title=l; break
     if not title and readme: title=readme.strip().splitlines()[0].strip('# ')
     caught=[f"{c} `{(v['violation_keys'] or ['?'])[0]}`" for c,v in m.get('checks',{}).items() if v.get('rc')==1]
-    rows.append((n,title[:110],'yes' if m.get('confirmed_valid_seeded_change') else 'NO', '; '.join(caught) if caught else ('not judged: outside the statement (see meta.json)' if m.get('outside_statement') else '**missed**')))
+    rows.append((n,title[:110],'yes' if m.get('confirmed_valid_seeded_change') else 'NO', '; '.join(caught) if caught else ('not judged: outside the statement (see meta.json)' if m.get('outside_statement') else ('exposed a defect of the unchanged tree, repaired by fix: %s; harmless on the repaired tree (see meta.json)' % m['led_to_fix'] if m.get('led_to_fix') else '**missed**'))))
 out=["# Seeded changes from independent sub-agents","",
 "Each directory holds patch.diff, the demonstration, the author's README and meta.json (what was run here: apply, build, repository suite, demonstration without/with the patch, quick checks). "
 "`confirmed` = applies, builds, repository suite passes, demonstration passes without and fails with the patch. Regenerate with tools/seeded_table.py; re-run all with tools/regress_seeded.sh.","",
